@@ -20,7 +20,7 @@ NUMS = {   # boundary tables for the numeric text (x, y, z, occupancy, B)
     "round": ((0.0005, -0.0005, 12.3456), 0.005, 99.995),
 }
 # the last atom of a chain never carries 99999: the TER record that follows needs serial+1, which cannot fit five columns
-SERIALS = {1: [99998], 2: [99999, 7], 3: [1, 99998, 12345]}
+SERIALS = {1: [99998], 2: [99998, 7], 3: [1, 99998, 12345]}
 CHARGES = [None, "1+", "2-", "1", "-1", "1.0"]
 EXPECT_CHARGE = {None: "", "1+": "1+", "2-": "2-", "1": "1+", "-1": "1-", "1.0": "1+"}
 
